@@ -1,9 +1,109 @@
-(* Parse/Props.v — property C41 (being written) *)
+(* Parse/Props.v — property C41: "the parser terminates without panicking and locates its errors inside
+   the input", for the hand-written passes of crates/varpulis-parser (PARTIAL: the pest-generated
+   recogniser and the AST builder are not modelled; see checks/C41.py for the exploration half).
+
+   Model: Parse/Model.v (prepass = expand_with_origins; preprocess_indentation; check_nesting_depth, and
+   SourceLocation::in_original / from_position through which parse() reports every located error).  *)
 From Coq Require Import String.
-From VP Require Import Base.Tactics Text.Str Text.Expand Parse.Model.
+From VP Require Import Base.Tactics Text.Str Text.Expand Parse.Model Parse.Proofs.
 Open Scope N_scope.
 
-Example C41_demo_relocate :
-  relocate (s2l "fn f():" ++ [10] ++ s2l "    if a:" ++ [10] ++ s2l "        return 1" ++ [10] ++ s2l ")" ++ [10]) 55
-  = Some {| l_line := 4; l_col := 1; l_pos := 35 |}.
+(* No pass panics, whatever the source: `origins[..]` is always in range (the line map stays aligned with
+   the lines through every pass), `indent_stack.last().unwrap()` always finds an element, and byte slicing
+   at the indentation width falls back to trimming. *)
+Theorem C41_prepass_no_panic : forall source, prepass source <> PPanic.
+Proof.
+  intros source H. unfold prepass in H.
+  pose proof (expand_o_ok source) as He.
+  destruct (expand_o source) as [[expanded origins]| |]; [|discriminate|exact He].
+  destruct (preprocess_ok expanded) as [pre Ep]. rewrite Ep in H.
+  destruct (check_nesting pre); discriminate.
+Qed.
+
+(* The expansion is bounded: (1) the fuel of a pass never runs out (any fuel above the number of lines
+   gives the same result); (2) a pass over a text whose line map is aligned adds at most
+   MAX_EXPANDED_LINES lines; (3) at most MAX_EXPANSION_PASSES = 10 passes run, so a successful expansion
+   has at most 10 * 100000 lines more than the source, its line map has one entry per line, and it is a
+   fixed point of the pass (no expandable loop is left). *)
+Theorem C41_expand_terminates :
+  (forall f g lines orig, (length lines < f)%nat ->
+     one_pass_o f g lines orig = one_pass_o (S (length lines)) g lines orig) /\
+  (forall text orig e oo, length orig = length (str_lines text) ->
+     one_pass_text_o text orig = POk (e, oo) ->
+     length oo = length (str_lines e) /\
+     N.of_nat (length (str_lines e)) <= N.of_nat (length (str_lines text)) + max_expanded_lines) /\
+  (forall source t o, expand_o source = POk (t, o) ->
+     length o = length (str_lines t) /\
+     N.of_nat (length (str_lines t)) <= N.of_nat (length (str_lines source)) + 10 * max_expanded_lines /\
+     exists oo, one_pass_text_o t o = POk (t, oo)).
+Proof.
+  split; [|split].
+  - intros f g lines orig H. apply one_pass_o_fuel; lia.
+  - intros text orig e oo Hal H. pose proof (one_pass_text_o_ok text orig Hal) as Hok.
+    rewrite H in Hok. exact Hok.
+  - intros source t o H. pose proof (expand_o_ok source) as Hok. rewrite H in Hok.
+    destruct Hok as [A B]. split; [exact A|]. split; [exact B|].
+    unfold expand_o in H. destruct (expand_go_o_fixpoint _ _ _ _ _ H) as (e & oo & E1 & E2).
+    subst e. eauto.
+Qed.
+
+(* Every location parse() reports lies within the input: the nesting error of the pre-scan, and the
+   relocation of ANY byte offset p of the preprocessed text (whatever pest or the AST builder names),
+   is a split of the source at a character boundary together with the byte offset, the line number and
+   the column of exactly that place. *)
+Theorem C41_position_in_range : forall source,
+  (forall a, prepass source = PNest a -> loc_in source a) /\
+  (forall p a, relocate source p = Some a -> loc_in source a).
+Proof.
+  intros source. split.
+  - intros a H. unfold prepass in H.
+    destruct (expand_o source) as [[expanded origins]| |]; try discriminate.
+    destruct (preprocess expanded) as [pre| |]; try discriminate.
+    destruct (check_nesting pre); [|discriminate]. inv H. apply in_original_in.
+  - intros p a H. unfold relocate in H.
+    destruct (prepass source); try discriminate. inv H. apply in_original_in.
+Qed.
+
+(* ... which in numbers means: offset <= length in bytes, 1 <= line <= number of lines,
+   1 <= column <= characters of that line + 1 *)
+Theorem C41_position_bounds : forall source a, loc_in source a ->
+  l_pos a <= utf8_len source /\
+  1 <= l_line a <= N.of_nat (length (split_nl source)) /\
+  1 <= l_col a <= 1 + N.of_nat (length (line_of source (l_line a - 1))).
+Proof.
+  intros source a H. pose proof (loc_in_bounds source a H) as (A & B & C).
+  unfold split_nl. rewrite split_nl_length. auto.
+Qed.
+
+(* the same for SourceLocation::from_position itself (public API, any position) *)
+Theorem C41_from_position_in_range : forall source position, loc_in source (from_position source position).
+Proof. exact from_position_in. Qed.
+
+(* ---- non-vacuity: the outcomes exist, with concrete sources ------------------------------------------ *)
+Open Scope string_scope.
+Definition src_lines (ls : list string) : str := concat (map (fun l => (s2l l ++ [10])%list) ls).
+
+Open Scope N_scope.
+(* an error after three DEDENT markers is reported at line 5, column 1 (pest names offset 89 of the
+   preprocessed text; before the fix the parser reported column 25 of a one-character line) *)
+Example C41_relocate_after_dedent :
+  relocate (src_lines ["fn f():"; "    if a:"; "        if b:"; "            return 1"; ")"]) 89
+  = Some {| l_line := 5; l_col := 1; l_pos := 53 |}.
+Proof. vm_compute. reflexivity. Qed.
+
+(* a nesting error inside the third copy of a loop body is reported on the body line of the source *)
+Example C41_nest_in_loop :
+  prepass (src_lines ["for i in 0..30:"; "    x = ("]) = PNest {| l_line := 2; l_col := 9; l_pos := 24 |}.
+Proof. vm_compute. reflexivity. Qed.
+
+(* sources that used to panic inside parse() *)
+Example C41_was_panic_strip :
+  exists e o p, prepass (s2l "for i in 0..2:" ++ [10; 32] ++ s2l "x{i}" ++ [10; 12288] ++ s2l "y{i}" ++ [10])%list = PPass e o p.
+Proof. vm_compute. eauto. Qed.
+Example C41_was_panic_overflow :
+  prepass (src_lines ["for i in 0..=9223372036854775807:"; "    x"]) = PExpandErr.
+Proof. vm_compute. reflexivity. Qed.
+(* the line limit: 300 x 400 single-line copies are refused in the second pass *)
+Example C41_line_limit :
+  prepass (src_lines ["for a in 0..300:"; "  for b in 0..400:"; "    s{a}_{b}"]) = PExpandErr.
 Proof. vm_compute. reflexivity. Qed.
